@@ -7,7 +7,8 @@ GEN = ['C19']
 LEAN_TARGETS = ['OtelVerif.Props.C19']
 THEOREMS = ['Otel.C19.' + t for t in (
     'name_regex', 'unit_regex', 'validators_see_whole_view', 'gen_literals', 'rxMatch_iff_lang',
-    'validName_iff', 'validUnit_iff', 'validName_aswas_witness', 'invalid_gives_inert', 'inert_never_streams',
+    'validName_iff', 'validUnit_iff', 'validName_aswas_witness', 'hand_constants', 'validNameHand_iff', 'validUnitHand_iff',
+    'validators_agree', 'hand_aswas_witness', 'invalid_gives_inert', 'inert_never_streams',
     'disabled_meter_never_streams',
     'pattern_all', 'pattern_literal_iff', 'pattern_matches_iff_lang', 'exact_iff',
     'view_applies_iff_selectors_match', 'matchMeter_aswas_witness', 'findViews_spec',
@@ -18,7 +19,9 @@ THEOREMS = ['Otel.C19.' + t for t in (
     'same_identity_same_instance', 'instance_config_fixed')]
 HARNESSES = [Harness('s_c19', ['harness/s_c19.cc'],
                      sdk_srcs=sdk_sources('common', 'resource', 'version', 'metrics', 'trace', 'logs'),
-                     includes=SDK_INCLUDES)]
+                     includes=SDK_INCLUDES),
+             # second TU: the hand-written (non-regex) validator variants, compiled from the unmodified source file
+             Harness('s_c19b', ['harness/s_c19b.cc'], includes=SDK_INCLUDES)]
 # sanitizer reports are classified by their first line; symbolizing every report would dominate a run in which many cases abort
 HARNESS_ENV = {'ASAN_OPTIONS': 'detect_leaks=0:abort_on_error=0:exitcode=99:allocator_may_return_null=1:symbolize=0',
                'UBSAN_OPTIONS': 'print_stacktrace=0:halt_on_error=1:exitcode=98:symbolize=0'}
@@ -178,7 +181,7 @@ def oracle(case, out):
         return ('no-out-of-bounds-read-or-crash', out)
     if out.startswith('bad-op'):
         return ('bad-case', out)
-    if t[0] == 'val':
+    if t[0] in ('val', 'val2'):
         s = unhx(t[2])
         want = spec_valid_name(s) if t[1] == 'name' else spec_valid_unit(s)
         if out != ('1' if want else '0'):
@@ -235,6 +238,8 @@ def signature(case, out, clause):
         return clause + '/shadowed-by-later-matching-view'
     if clause == 'view-attribute-filter-shapes-stream':
         return clause + '/observable-instrument'
+    if t[0] == 'val2':
+        return clause + '/hand-written-variant'
     if clause == 'same-identity-same-instance':
         return clause + '/' + {'t': 'tracer', 'm': 'meter', 'l': 'logger'}.get(t[1], '?')
     return clause
@@ -242,7 +247,7 @@ def signature(case, out, clause):
 
 def nontrivial(case, out):
     t = case.line.split()
-    if t[0] == 'val':
+    if t[0] in ('val', 'val2'):
         return t[2] != '-'
     if t[0] == 'mv':
         return ' i ' in case.line
@@ -265,6 +270,9 @@ def corpus():
     c('val unit ' + hx(b'u' * 63), 'boundary')
     c('val unit ' + hx(b'u' * 64), 'boundary')
     c(f'mv m {hx(b"m")} - - 1 ; i c l {hx(b"abc" + bytes([0]) + b"!!!")} - -', 'D12')
+    # D62: the hand-written variants (second TU): empty name, NUL in a unit
+    for line in ('val2 name -', 'val2 unit ' + hx(b'a\x00'), 'val2 name ' + hx(b'abc'), 'val2 unit ' + hx(b'ms')):
+        out.append(Case(line, 's_c19b', ('corpus', 'D62'), 'corpus'))
     # D13: a meter without version / schema is not matched by a selector that names one
     c(f'mv m {hx(b"m")} - - 1 ; v c {hx(b"*")} - {hx(b"m")} {hx(b"2.0")} {hx(b"http://x")} {hx(b"renamed")} - - sum * ; i c l {hx(b"reqs")} - -', 'D13')
     c(f'mv m {hx(b"m")} {hx(b"2.0")} {hx(b"http://x")} 1 ; v c {hx(b"*")} - {hx(b"m")} {hx(b"2.0")} {hx(b"http://x")} {hx(b"renamed")} - - sum * ; i c l {hx(b"reqs")} - -', 'D13')
@@ -301,7 +309,7 @@ def gen_val(rng, big):
         out.append(C('val unit ' + hx(bytes(rng.randrange(1, 128) for _ in range(n))), 'val', 'unit-length-sweep'))
         if n <= 80:
             out.append(C('val unit ' + hx(bytes(rng.randrange(0, 256) for _ in range(n))), 'val', 'unit-length-sweep'))
-    for _ in range(20000 if big else 1500):
+    for _ in range(60000 if big else 6000):
         n = rng.choice([1, 2, 3, 8, 30, 62, 63, 64, 65, 253, 254, 255, 256, 257, 300])
         s = bytearray(rng.choice(NAME_CHARS[:52]) if k == 0 else rng.choice(NAME_CHARS) for k in range(n))
         r = rng.random()
@@ -358,7 +366,7 @@ def rand_view(rng, meter, target=None):
 
 def gen_mv(rng, big):
     out = []
-    for _ in range(30000 if big else 2500):
+    for _ in range(100000 if big else 10000):
         meter = (rng.choice(MNAMES), rng.choice(VERS), rng.choice(SCHEMAS))
         en = 0 if rng.random() < 0.05 else 1
         nv = rng.choice([0, 1, 1, 2, 2, 3, 4])
@@ -400,7 +408,7 @@ def gen_mv(rng, big):
 def gen_sc(rng, big):
     out = []
     names = [b'off', b'on', b'lib', b'lib.a', b'lib.b', b'', b'x']
-    for _ in range(30000 if big else 2500):
+    for _ in range(100000 if big else 10000):
         kind = rng.choice('tml')
         dflt = rng.choice([1, 1, 1, 0])
         ops = [f'd {dflt}']
@@ -429,7 +437,10 @@ def gen_sc(rng, big):
 
 def generate(rng, tier):
     big = tier == 'thorough'
-    return gen_val(rng, big) + gen_mv(rng, big) + gen_sc(rng, big)
+    vals = gen_val(rng, big)
+    # the same validator strings go to the hand-written variants in the second TU
+    vals2 = [Case('val2' + c.line[3:], 's_c19b', ('val2',) + c.tags[1:]) for c in vals]
+    return vals + vals2 + gen_mv(rng, big) + gen_sc(rng, big)
 
 
 LEVEL_TEXT = ('Lean 4 theorems over executable models of instrument_metadata_validator.cc, the view registry / predicates / selectors, '
